@@ -1,260 +1,28 @@
 #!/usr/bin/env python3
-"""Translator: regenerate coq/Gen/*.v from the *current* /repo working tree.
+"""Translator driver: regenerate coq/Gen/*.v from the *current* /repo working tree.
 
-Each generator scrapes the Rust source (tolerant of reformatting, intolerant of
-structure it does not understand: it raises, and the check then reports the
-obligation as broken) and writes definitions only.  A file is rewritten only
-when its content changes, so `make` re-checks the dependent theorems exactly
-when the tables changed.
+  tools/gen_tables.py [name ...]      (no name = every generator in tools/gen/)
+
+Each generator is a module tools/gen/<name>.py with a function generate() -> bool
+(True when the generated file changed).  Generators scrape the Rust source or ask
+the harness for compiled constants; they write definitions only.  A file is
+rewritten only when its content changes, so `make` re-checks the dependent theorems
+exactly when the tables changed.  A generator that does not understand what it
+reads raises ScrapeError: exit status 3, and the check reports the obligation as broken.
 """
-import os, re, sys, json
-
-REPO = os.environ.get("S4_REPO", "/repo")
-GEN = os.path.join(os.path.dirname(os.path.abspath(__file__)), "..", "coq", "Gen")
-
-
-class ScrapeError(Exception):
-    pass
-
-
-def read(rel):
-    with open(os.path.join(REPO, rel), encoding="utf-8") as f:
-        return f.read()
-
-
-def write_if_changed(path, text):
-    old = None
-    if os.path.exists(path):
-        with open(path, encoding="utf-8") as f:
-            old = f.read()
-    if old != text:
-        os.makedirs(os.path.dirname(path), exist_ok=True)
-        with open(path, "w", encoding="utf-8") as f:
-            f.write(text)
-        return True
-    return False
-
-
-def strip_comments(src):
-    # remove // comments and /* */ comments, keep string literals intact
-    out = []
-    i = 0
-    n = len(src)
-    while i < n:
-        c = src[i]
-        if c == '"':
-            j = i + 1
-            while j < n and src[j] != '"':
-                j += 2 if src[j] == "\\" else 1
-            out.append(src[i:j + 1])
-            i = j + 1
-        elif src.startswith("//", i):
-            j = src.find("\n", i)
-            i = n if j < 0 else j
-        elif src.startswith("/*", i):
-            j = src.find("*/", i)
-            i = n if j < 0 else j + 2
-        elif c == "'" and i + 2 < n and (src[i + 2] == "'" or (src[i + 1] == "\\" and i + 3 < n and src[i + 3] == "'")):
-            j = i + (3 if src[i + 2] == "'" else 4)
-            out.append(src[i:j])
-            i = j
-        else:
-            out.append(c)
-            i += 1
-    return "".join(out)
-
-
-def balanced(src, i, open_c="{", close_c="}"):
-    """src[i] == open_c; return index just after the matching close."""
-    assert src[i] == open_c
-    depth = 0
-    n = len(src)
-    while i < n:
-        c = src[i]
-        if c == '"':
-            j = i + 1
-            while j < n and src[j] != '"':
-                j += 2 if src[j] == "\\" else 1
-            i = j + 1
-            continue
-        if c == open_c:
-            depth += 1
-        elif c == close_c:
-            depth -= 1
-            if depth == 0:
-                return i + 1
-        i += 1
-    raise ScrapeError("unbalanced braces")
-
-
-def match_arms(src, header_re):
-    """Return [(patterns:[str] or None for '_', body:str)] of `match X {`."""
-    m = re.search(header_re, src)
-    if not m:
-        raise ScrapeError("match header not found: " + header_re)
-    start = src.index("{", m.end() - 1)
-    end = balanced(src, start)
-    body = src[start + 1:end - 1]
-    arms = []
-    i = 0
-    n = len(body)
-    while True:
-        while i < n and body[i] in " \t\r\n,":
-            i += 1
-        if i >= n:
-            break
-        j = body.find("=>", i)
-        if j < 0:
-            raise ScrapeError("arm without =>")
-        pat = body[i:j].strip()
-        k = j + 2
-        while body[k] in " \t\r\n":
-            k += 1
-        if body[k] == "{":
-            e = balanced(body, k)
-            arm_body = body[k:e]
-        else:
-            e = body.find(",", k)
-            if e < 0:
-                e = n
-            arm_body = body[k:e]
-        if pat == "_":
-            arms.append((None, arm_body))
-        else:
-            lits = re.findall(r'"((?:[^"\\]|\\.)*)"', pat)
-            rest = re.sub(r'"((?:[^"\\]|\\.)*)"', "", pat).replace("|", "").strip()
-            if rest or not lits:
-                raise ScrapeError("arm pattern not a list of string literals: %r" % pat)
-            arms.append((lits, arm_body))
-        i = e
-    return arms
-
-
-FTA = ["Normal", "Bz2", "Gz", "Lz4", "Tar", "Xz"]
-FIXED = ["Acct", "AcctV3", "Lastlog", "Lastlogx", "Utmp", "Utmpx"]
-
-
-def classify_action(body, for_suffix):
-    # string literals (trace messages) must not influence the reading of an arm
-    b = re.sub(r'"((?:[^"\\]|\\.)*)"', '""', body)
-    if "pathbuf_to_filetype_impl" in b:
-        m = re.search(r"Some\(\s*FileTypeArchive::(\w+)\s*\)", b)
-        if not m or m.group(1) not in FTA:
-            raise ScrapeError("recursive arm without a literal container: %r" % b[:200])
-        return "SCompress " + m.group(1)
-    if "PathToFiletypeResult::Archive" in b:
-        if "FileTypeArchiveMultiple::Tar" not in b:
-            raise ScrapeError("archive arm not Tar")
-        return "STar"
-    kinds = []
-    if re.search(r"FileType::Evtx\b", b):
-        kinds.append("SEvtx")
-    if re.search(r"FileType::Journal\b", b):
-        kinds.append("SJournal")
-    if re.search(r"FileType::Text\b", b):
-        kinds.append("SText")
-    m = re.search(r"FileTypeFixedStruct::(\w+)", b)
-    if re.search(r"FileType::FixedStruct\b", b):
-        if not m or m.group(1) not in FIXED:
-            raise ScrapeError("FixedStruct arm without known kind")
-        kinds.append("(SFixed %s)" % m.group(1))
-    if "RET_FALLBACK_UNPARSABLE" in b or "RET_FALLBACK_TEXT" in b:
-        if not ("RET_FALLBACK_UNPARSABLE" in b and "RET_FALLBACK_TEXT" in b and "unparseable_are_text" in b):
-            raise ScrapeError("fallback arm of unexpected shape")
-        kinds.append("SUnparsable")
-    if len(kinds) != 1:
-        raise ScrapeError("arm with %d recognised results: %r" % (len(kinds), b[:200]))
-    k = kinds[0]
-    if "archival_type" in b and not re.search(r"archival_type:\s*fta\b", b):
-        raise ScrapeError("arm does not pass the container through: %r" % b[:200])
-    if not for_suffix:
-        tr = {"SText": "NText", "SJournal": "NJournal"}
-        if k in tr:
-            return tr[k]
-        if k.startswith("(SFixed"):
-            return k.replace("SFixed", "NFixed")
-        raise ScrapeError("whole-name arm with result %s" % k)
-    return k
-
-
-def char_list(src, name):
-    m = re.search(r"const\s+%s\s*:\s*&\[char\]\s*=\s*&\[([^\]]*)\]" % name, src)
-    if not m:
-        raise ScrapeError(name + " not found")
-    chars = re.findall(r"'(\\.|[^'])'", m.group(1))
-    if not chars:
-        raise ScrapeError(name + " empty")
-    out = []
-    for c in chars:
-        if len(c) != 1 or ord(c) > 127:
-            raise ScrapeError("non-ASCII or escaped junk char %r" % c)
-        out.append(ord(c))
-    return out
-
-
-def coq_str(s):
-    for ch in s:
-        if ord(ch) > 126 or ord(ch) < 32 or ch == '"' or ch == "\\":
-            raise ScrapeError("word with unsupported character: %r" % s)
-    return '"%s"' % s
-
-
-def scrape_classify():
-    src = strip_comments(read("src/readers/filepreprocessor.rs"))
-    a = src.find("fn pathbuf_to_filetype_impl(")
-    b = src.find("pub fn pathbuf_to_filetype(")
-    if a < 0 or b < 0 or b < a:
-        raise ScrapeError("pathbuf_to_filetype_impl not found")
-    fn = src[a:b]
-    sfx = match_arms(fn, r"match\s+file_suffix\.as_str\(\)\s*\{")
-    nam = match_arms(fn, r"match\s+file_name_s\s*\{")
-    sfx_rows, nam_rows = [], []
-    for pats, body in sfx:
-        if pats is None:
-            continue
-        act = classify_action(body, True)
-        for w in pats:
-            sfx_rows.append((w, act))
-    for pats, body in nam:
-        if pats is None:
-            continue
-        act = classify_action(body, False)
-        for w in pats:
-            nam_rows.append((w, act))
-    junk = char_list(fn, "JUNK_CHARS")
-    junk_lead = char_list(fn, "JUNK_CHARS_LEAD")
-    return {"sfx": sfx_rows, "name": nam_rows, "junk": junk, "junk_lead": junk_lead}
-
-
-def gen_classify():
-    t = scrape_classify()
-    lines = []
-    lines.append("(* GENERATED by tools/gen_tables.py from src/readers/filepreprocessor.rs — do not edit. *)")
-    lines.append("From S4.Base Require Import Bytes.\nFrom S4.Model Require Import Classify.")
-    lines.append("From Coq Require Import String.")
-    lines.append("Open Scope string_scope.")
-    lines.append("Definition sfx_table : list (bytes * sfx_action) := [")
-    lines.append(";\n".join("  (s2b %s, %s)" % (coq_str(w), a) for w, a in t["sfx"]))
-    lines.append("].")
-    lines.append("Definition name_table : list (bytes * name_action) := [")
-    lines.append(";\n".join("  (s2b %s, %s)" % (coq_str(w), a) for w, a in t["name"]))
-    lines.append("].")
-    lines.append("Definition junk : list N := [%s]%%N." % "; ".join(str(c) for c in t["junk"]))
-    lines.append("Definition junk_lead : list N := [%s]%%N." % "; ".join(str(c) for c in t["junk_lead"]))
-    lines.append("")
-    changed = write_if_changed(os.path.join(GEN, "ClassifyTables.v"), "\n".join(lines))
-    with open(os.path.join(GEN, "classify_tables.json"), "w") as f:
-        json.dump(t, f)
-    return changed
-
-
-GENERATORS = {"classify": gen_classify}
+import glob, importlib, os, sys
+HERE = os.path.dirname(os.path.abspath(__file__))
+sys.path.insert(0, os.path.join(HERE, "gen"))
+sys.path.insert(0, HERE)
+from common import ScrapeError
 
 
 def main(argv):
-    names = argv[1:] or list(GENERATORS)
+    names = argv[1:] or sorted(os.path.basename(p)[:-3] for p in glob.glob(os.path.join(HERE, "gen", "*.py"))
+                               if os.path.basename(p) not in ("common.py", "__init__.py"))
     for n in names:
-        ch = GENERATORS[n]()
+        mod = importlib.import_module(n)
+        ch = mod.generate()
         print("gen %s: %s" % (n, "rewritten" if ch else "unchanged"))
 
 
